@@ -328,7 +328,7 @@ def gen_tree(rng, cfg=None):
             same = [e['path'] for e in ents if e.get('tag') in ('DATA', 'MISC', 'EBUILD') and '/' not in e.get('path', '/')]
             if same:
                 ents.append({'tag': 'DIST', 'path': rng.choice(same), 'c': 'distfile of the same name', 'hashes': ['SHA512']})
-        if rng.random() < 0.1:
+        if rng.random() < cfg.get('p_timestamp', 0.1):
             ents.append({'tag': 'TIMESTAMP', 'ts': '2020-09-13T12:00:00Z'})
         if rng.random() < 0.5:
             rng.shuffle(ents)
